@@ -5,6 +5,10 @@ V = os.path.dirname(os.path.dirname(os.path.abspath(__file__)))
 props = [json.loads(l) for l in open(os.path.join(V, "properties.jsonl"))]
 
 CLAIMED = {
+ "C20": dict(
+  technique="rapid-generated multi-file workspaces from the model with exact quantities; hover markdown parsed back and compared as rationals/counts with aggregates computed from the model",
+  text="Workspaces of 1..4 journals with amounts of up to 12 decimals in every supported notation are written to disk; hover is requested on every posting account, payee/description, tag name, tag value and amount of the requesting file (root or included file, with and without workspace root). Per-commodity balances are parsed from the markdown and compared, as math/big rationals, with the exact sums of the amounts explicitly posted to that account over the files in scope; posting, transaction and tag usage counts and the amount/cost shown for an amount hover are compared with the model.",
+  note="'Number of such postings' is accepted in both readings (all postings of the account, or those with an explicit amount). Tags in account-directive comments and top-level comments are not generated (whether they are 'uses' is not fixed by the property). Scope as in C09."),
  "C09": dict(
   technique="rapid-generated multi-file workspaces rendered from the model; references compared as sets with the renderer's occurrence table; rename judged by applying the WorkspaceEdit with a reference edit applier and comparing whole file texts",
   text="Workspaces of 1..4 journals (shared name pools, include graph with diamonds and unreachable siblings) are written to disk; the server runs with or without a workspace root and the request comes from the root or an included file, optionally with an unsaved edit in the requesting buffer. For every posting account, posting commodity and payee under the cursor the returned locations must be exactly the occurrences in scope (postings, costs, assertions, P/D/commodity/account directives; declarations present iff asked), each attributed to the file that contains it, without duplicates. Rename edits are applied to every file text; the result must equal the texts with exactly the occurrence spans replaced by the new name.",
